@@ -98,6 +98,7 @@ def c01_1(c: Ctx) -> None:
     loop = selection_loop(c, u)
     it = loop.iter
     it_names = {n.id for n in ast.walk(it) if isinstance(n, ast.Name)}
+    flow_by_key: dict[str, list] = {}
     for node, k in lookups:
         st = q.stmt_of(node)
         flows = False
@@ -118,10 +119,13 @@ def c01_1(c: Ctx) -> None:
                         flows = True
                 if locs & it_names:
                     flows = True
-        if flows:
-            c.ok(where(u, node), f'handlers looked up under {k} reach the selection loop')
+        flow_by_key.setdefault(k, []).append((node, flows))
+    for k, lst in flow_by_key.items():
+        # the same lookup may be written out more than once (a truth test for a fast path, then the use): one of them must feed the loop
+        if any(f for _, f in lst):
+            c.ok(where(u, lst[0][0]), f'handlers looked up under {k} reach the selection loop')
         else:
-            c.fail(u, f'lookup under {k} does not flow into the selection loop', f'handlers read under {k} never reach the loop that selects handlers', node=node)
+            c.fail(u, f'lookup under {k} does not flow into the selection loop', f'handlers read under {k} never reach the loop that selects handlers', node=lst[0][0])
     # the iterated variable must not be rebound to something that drops elements after the lookups
     for n in own_nodes_list(u):
         if isinstance(n, (ast.Assign, ast.AnnAssign)) and lookups and n.lineno > max(x.lineno for x, _ in lookups) and n.lineno < loop.lineno and not any(x is loop for x in ast.walk(n)):
@@ -160,9 +164,13 @@ def check_lookup_not_memoised(c: Ctx, u: Unit, lookups) -> None:
     from sa.cfg import search
 
     rets = [n for n in g.live_nodes() if n.kind == 'return']
+    by_key: dict[str, list] = {}
     for node_, k in lookups:
-        st_ = q.stmt_of(node_)
-        ids = {x.id for x in g.nodes_of(st_)}
+        by_key.setdefault(k, []).append(node_)
+    for k, nodes_k in by_key.items():
+        node_ = nodes_k[0]
+        # any of the reads under this key counts (the same lookup may be written out at several uses)
+        ids = {x.id for nd in nodes_k for x in g.nodes_of(q.stmt_of(nd))}
         for rn in rets:
             p = search([(g.entry, ())], is_target=lambda n, d: n is rn, is_barrier=lambda n, d: n.id in ids, edge_ok=lambda n, e, d: None if e.is_exc else d)
             if p is not None:
@@ -734,6 +742,8 @@ def c01_5(c: Ctx) -> None:
         env = {ps[0]: Obj('EventBus', 'b'), ps[1]: Rec(event_results=results, event_path=['b'], event_id='E', event_parent_id=None), ps[2]: Obj('function', 'h')}
         ai.run(w.node.body, env)
         rets = ai.returns
+        if ai.undecided:
+            raise AnalysisError(f'_would_create_loop: test `{U(ai.undecided[0])[:70]}` is undecided for existing result state {status} (both branches would have to be followed: no verdict)')
         if not rets or any(r is UNKNOWN for r in rets):
             raise AnalysisError(f'_would_create_loop: return value undecided for existing result state {status}')
         want = status is not None
@@ -973,6 +983,46 @@ def c01_10(c: Ctx) -> None:
     from .c07 import c07_2
 
     c07_2(c)
+
+
+@ob('C01.11', 'SHAPE', 'the recursion guard counts an ancestor only when this handler has a pending, started or completed result on it: an ancestor on which the handler *failed* is not a level '
+    'of recursion (counting it makes the guard fire — and an accepted event go undelivered — in retry-after-failure chains that never recursed)')
+def c01_11(c: Ctx) -> None:
+    u = c.unit(SVC, 'EventBus._handler_dispatched_ancestor')
+    incs = [n for n in own_nodes_list(u) if (isinstance(n, ast.AugAssign) and isinstance(n.op, ast.Add)) or
+            (isinstance(n, ast.Assign) and isinstance(n.value, ast.BinOp) and isinstance(n.value.op, ast.Add) and isinstance(n.value.right, ast.Constant) and n.value.right.value == 1)]
+    incs = [n for n in incs if isinstance(getattr(n, 'value', None), (ast.Constant, ast.BinOp)) and (not isinstance(n, ast.AugAssign) or (isinstance(n.value, ast.Constant) and n.value.value == 1))]
+    if not incs:
+        raise AnalysisError(f'{u}: no `+= 1` of the recursion depth found')
+    for inc in incs:
+        tests = [a.test for a in q.ancestors_of(inc) if isinstance(a, ast.If) and q.lexically_in(inc, a, 'body') and '.status' in U(a.test)]
+        verdicts = {}
+        for st in ('pending', 'started', 'completed', 'error'):
+            val: bool | None = True
+            for t in tests:
+                recs = {x.value.id for x in ast.walk(t) if isinstance(x, ast.Attribute) and x.attr == 'status' and isinstance(x.value, ast.Name)}
+                ai = AbsInt()
+                v = ai.truth(ai.ev(t, {r: Rec(status=st) for r in recs}))
+                val = None if (v is None or val is None) else (val and v)
+            verdicts[st] = val
+        if any(v is None for v in verdicts.values()):
+            raise AnalysisError(f'{u}: the status filter of the recursion count is undecided ({[U(t)[:50] for t in tests]})')
+        want = {'pending': True, 'started': True, 'completed': True, 'error': False}
+        if verdicts == want:
+            c.ok(where(u, inc), 'an ancestor counts towards the recursion depth iff the handler\'s result on it is pending / started / completed')
+        else:
+            wrong = sorted(k for k in want if verdicts[k] != want[k])
+            c.fail(u, f'recursion depth counted for result statuses {sorted(k for k, v in verdicts.items() if v)}', f'the recursion guard miscounts ancestors whose result is {wrong}: ' +
+                   ('a chain in which the handler merely failed on earlier events trips "Infinite loop detected" and the accepted event is delivered to no handler' if 'error' in wrong else
+                    'real recursion through those ancestors is not counted'), node=inc)
+
+
+@ob('C01.12', 'DOM', 'a handler that has a pending result gets its turn: pending results of child events are turned into errors only when the handler that was waiting on them *timed out* '
+    '(same obligation as C10.2) — if an ordinary failure of some handler cancels them too, a child handler that was still going to run finds its result no longer pending and is never invoked')
+def c01_12(c: Ctx) -> None:
+    from .c10 import c10_2
+
+    c10_2(c)
 
 
 from .common import await_coro  # noqa: E402
